@@ -218,8 +218,9 @@ CHECKS["C14"] = dict(
     level_text="All sequences up to the bound over writes of sizes {0,1,2,2047,2048,2049,65536,1 MiB} x content classes {zeros, text-like, incompressible, gzip-looking} and rotations, for GZIP and XZ, to named files and descriptors, plus single writes of 5..48 MiB (8 MiB in the quick tier) alone and after a rotation: every output file must carry the .gz/.xz suffix (named), have no .part left, be exactly one complete stream (decoder reaches stream end with no input left) and decompress to exactly the bytes written since the previous rotation. Runs on an uninstrumented build with the default 8 MiB stack in forked workers, so a crash of the writer is attributed to its sequence.",
     level_note="Trusted: zlib inflate / liblzma stream decoder as decompressors (Python's gzip and lzma modules wrap the same C libraries; they are run on a sample in the thorough tier as a cross-check of the harness' own decoder loop). The end-to-end path through the exporter: 25000 / 60000-record exports (3 content kinds) compared with the uncompressed export of the same records, plus C13's gzip/xz profiles. The harness defines deflate and lzma_code itself as passive observers (the real functions are called unchanged) that classify every codec pass; the stage is rejected as vacuous unless passes that consumed only part of a chunk and finishes that needed several passes were reached.",
     stages=[dict(harness="comp", variant="plain", require=["gz_partial_input_passes", "gz_finish_multipass", "xz_finish_multipass", "export_runs", "short_writes"]),
+            dict(harness="comp", variant="asan", args=["--mode", "static-exit"], prefix="asan_", require=["static_exit_runs"], max_alloc_mb=512),   # destruction at exit() under ASan: use of an already destroyed function-local static is reported
             dict(kind="py", harness="decomp", tiers=("thorough",), prefix="py_")],
-    rule="stateless DFS over the (size, class)/rotate alphabet for 2 formats x 2 sink kinds; chunking sweep: 600 KiB (thorough: 4 MiB for gzip) written in chunks of one size, for text-like / incompressible / mixed-entropy data; end-to-end exports; environment deviation 'short write' (every write(2) transfers at most 1 / 7 / 1000 / 4096 / 65536 bytes) on two sequences per format and sink; non-trivial = at least one step; all distinct",
+    rule="stateless DFS over the (size, class)/rotate alphabet for 2 formats x 2 sink kinds; chunking sweep: 600 KiB (thorough: 4 MiB for gzip) written in chunks of one size, for text-like / incompressible / mixed-entropy data; end-to-end exports; a writer of static storage duration destroyed by exit() in a forked child (also under AddressSanitizer); environment deviation 'short write' (every write(2) transfers at most 1 / 7 / 1000 / 4096 / 65536 bytes) on two sequences per format and sink; non-trivial = at least one step; all distinct",
     bound_quick="sequences of length <= 2 (29 steps alphabet) + 8 MiB single writes", bound_thorough="length <= 3 + single writes of 5, 6, 8, 16, 48 MiB",
     assumptions=["default RLIMIT_STACK (8 MiB)"],
 )
@@ -251,8 +252,8 @@ ENGINES.append(dict(name="E-FAULT", path="harness/fault.cpp", serves_properties=
 _TOOLS = ["cdns-merge", "cdns-itemcount", "cdns-blocks", "cdns-items", "cdns-preamble"]
 CHECKS["C18"] = dict(
     level="exploration", engine="E-CLI",
-    technique="exhaustive enumeration of argument tuples on the real tool binaries: every tuple of 1..3 inputs over a pool of 12 files through cdns-merge, cdns-itemcount with every option combination, compared with the independent reader",
-    level_text="Pool: A (1 parameter set, 10^6 ticks, 3 blocks), B (2 sets, 10^3 ticks, reduced hints, collection parameters, 4 blocks alternating sets), C (10^9 ticks, all QR hints off, statistics), D (minor version differs), E (private version differs), G (300 non-C-DNS bytes), H (B cut inside its 2nd block), I (valid, zero blocks), J (10^9 ticks, blocks without block-parameters-index), K (A with two empty blocks), Z (missing path). All 12+144+1728 tuples (+ one tuple of 142 inputs whose 280 distinct parameter sets push the merged file's block-parameters indices beyond 8 bits) are merged by the real cdns-merge (ASan/UBSan build); expected blocks = non-empty blocks of every input that is C-DNS and version-equal to the first readable one, up to its first error, in order; the output must validate, hold exactly those blocks with records, statistics, earliest time and absolute times unchanged, and each block's parameter set in the output preamble must equal the one it had in its source; with no contributing block the output must be empty. cdns-itemcount (-b, -p, both, none) on every valid input and merged output must print the counts of the independent parse.",
+    technique="exhaustive enumeration of argument tuples on the real tool binaries: every tuple of 1..3 inputs over a pool of 13 files through cdns-merge, cdns-itemcount with every option combination, compared with the independent reader",
+    level_text="Pool: A (1 parameter set, 10^6 ticks, 3 blocks), B (2 sets, 10^3 ticks, reduced hints, collection parameters, 4 blocks alternating sets), C (10^9 ticks, all QR hints off, statistics), D (minor version differs), E (private version differs), G (300 non-C-DNS bytes), H (B cut inside its 2nd block), I (valid, zero blocks), J (10^9 ticks, blocks without block-parameters-index), K (A with two empty blocks), Z (missing path). All 13+169+2197 tuples (+ one tuple of 142 inputs whose 280 distinct parameter sets push the merged file's block-parameters indices beyond 8 bits) are merged by the real cdns-merge (ASan/UBSan build); expected blocks = non-empty blocks of every input that is C-DNS and version-equal to the first readable one, up to its first error, in order; the output must validate, hold exactly those blocks with records, statistics, earliest time and absolute times unchanged, and each block's parameter set in the output preamble must equal the one it had in its source; with no contributing block the output must be empty. cdns-itemcount (-b, -p, both, none) on every valid input and merged output must print the counts of the independent parse.",
     level_note="Trusted: ref/ reader for inputs and outputs; integers are extracted from the tools' stdout without relying on the free-text layout. The other inspection tools are covered for safety by C03's tools stage.",
     stages=[dict(harness="cli", variant="asan", args=["--mode", "merge"], tools=["cdns-merge", "cdns-itemcount"])],
     rule="tuples enumerated exhaustively (order matters, repetition allowed); every tuple is a distinct real tool run; non-trivial: all",
